@@ -723,7 +723,6 @@ class Unit:
                     # without a reference unit there is no common scale
                     return self is other
                 else:
-                    assert other._equiv is not None
                     return self._equiv == other._equiv
         return False
 
@@ -976,8 +975,9 @@ class Unit:
             if self.qty_cls is other.qty_cls:
                 if qty_cls.ref_unit is None:
                     return None
-                assert self._equiv is not None
-                assert other._equiv is not None
+                if self._equiv is None or other._equiv is None:
+                    # at least one of them is not scaled
+                    return None
                 return self._equiv / other._equiv
         raise TypeError(f"Can't compare a unit to a '{type(other)}'.")
 
@@ -1092,11 +1092,20 @@ class QuantityMeta(ClassWithDefinitionMeta):
         # unit's hash depends on it
         if isinstance(define_as, Term):
             unit._definition = define_as
-            equiv = define_as.normalized().num_elem or ONE
+            norm_def = define_as.normalized()
+            equiv = norm_def.num_elem or ONE
             if isinstance(equiv, Integral):
                 # the quotient of two ints would be a float
                 equiv = Decimal(equiv)
-            unit._equiv = equiv
+            ref_unit = None if is_ref_unit else cls._ref_unit
+            if ref_unit is not None and \
+                    norm_def.split()[1] != ref_unit.normalized_definition:
+                # not a multiple of the reference unit (possible if that one
+                # was given just by a symbol for a class derived from classes
+                # without reference unit), so there is no common scale
+                unit._equiv = None
+            else:
+                unit._equiv = equiv
         else:
             assert define_as is None, "Unknown type of Unit definition."
             unit._definition = None
